@@ -27,6 +27,7 @@
     effective     virtual_attribution.rs:from_just_working_log for this file — the LATEST entry's line numbers
                   applied BY POSITION to the file as it is now (no blob is read here); with no entry, INITIAL
                   (carried over through its recorded content when that differs from the file)
+    heal          checkpoint.rs:save_current_file_states — runs first: writes the current content as blob sha256(content)
     commitNote    post_commit / to_authorship_log_and_initial_working_log for `git commit -a` of this file:
                   committed lines the commit adds whose effective author is a session
 -/
@@ -76,11 +77,12 @@ def positional : List Author → List Nat → List Author
   | [], _ :: cs => none :: positional [] cs
   | a :: as, _ :: cs => a :: positional as cs
 
-/-- what the pre-commit checkpoint diffs against. -/
-def prevState (P : Params) (store : Store) (wl : WLog) (cur : List Nat) : Option Entry :=
+/-- what the pre-commit checkpoint diffs against. `se`: the blobs as the read of an ENTRY's snapshot sees them;
+    `sp`: as the read of INITIAL's recorded snapshot sees them (they differ by `heal`, see `commitNote`). -/
+def prevState (P : Params) (se sp : Store) (wl : WLog) (cur : List Nat) : Option Entry :=
   match wl.entries.getLast? with
   | some e =>
-    match store e.ref with
+    match se e.ref with
     | some c => some ⟨c, e.attr⟩
     | none =>
       match P.ckptLost with
@@ -90,7 +92,7 @@ def prevState (P : Params) (store : Store) (wl : WLog) (cur : List Nat) : Option
     match wl.pending with
     | none => none
     | some p =>
-      match store p.ref with
+      match sp p.ref with
       | some c => some ⟨c, p.attr⟩
       | none =>
         match P.initialLost with
@@ -100,19 +102,19 @@ def prevState (P : Params) (store : Store) (wl : WLog) (cur : List Nat) : Option
 /-- the pre-commit (human) checkpoint: `some attr` = a new entry with these per-line authors of `cur` is
     appended; `none` = no entry is written (fast path, or "unchanged since the previous checkpoint") — and the
     checkpoint still reports success. An entry made from INITIAL is written even when nothing changed. -/
-def preCommit (P : Params) (store : Store) (wl : WLog) (cur : List Nat) : Option (List Author) :=
-  match prevState P store wl cur with
+def preCommit (P : Params) (se sp : Store) (wl : WLog) (cur : List Nat) : Option (List Author) :=
+  match prevState P se sp wl cur with
   | none => none
   | some prev =>
     if prev.snap = cur && !wl.entries.isEmpty then none
     else some (checkpointAttr prev cur none)
 
 /-- INITIAL as `from_just_working_log` reads it (only when the file has no entry) -/
-def pendingEffective (P : Params) (store : Store) (wl : WLog) (cur : List Nat) : List Author :=
+def pendingEffective (P : Params) (sp : Store) (wl : WLog) (cur : List Nat) : List Author :=
   match wl.pending with
   | none => positional [] cur
   | some p =>
-    match store p.ref with
+    match sp p.ref with
     | some c => if c = cur then positional p.attr cur else checkpointAttr ⟨c, p.attr⟩ cur none
     | none =>
       match P.initialLost with
@@ -120,21 +122,34 @@ def pendingEffective (P : Params) (store : Store) (wl : WLog) (cur : List Nat) :
       | .current => positional p.attr cur
 
 /-- per-line authors of the file as it is at commit time, after the pre-commit checkpoint -/
-def effective (P : Params) (store : Store) (wl : WLog) (cur : List Nat) : List Author :=
-  match preCommit P store wl cur with
+def effective (P : Params) (se sp : Store) (wl : WLog) (cur : List Nat) : List Author :=
+  match preCommit P se sp wl cur with
   | some attr => positional attr cur
   | none =>
     match wl.entries.getLast? with
     | some e => positional e.attr cur
-    | none => pendingEffective P store wl cur
+    | none => pendingEffective P sp wl cur
 
 /-- the lines a note lists: (1-based line number, session) for committed lines not in the parent -/
 def noteOf (head cur : List Nat) (eff : List Author) : Note :=
   (enum1 (cur.zip eff)).filterMap (fun (i, (y, a)) => if head.contains y then none else a.map (fun s => (i, s)))
 
-/-- `git commit -a` of the file through the wrapper: pre-commit checkpoint, then the note -/
-def commitNote (P : Params) (store : Store) (wl : WLog) (head cur : List Nat) : Note :=
-  noteOf head cur (effective P store wl cur)
+/-- `save_current_file_states`: before it reads anything, a checkpoint stores the file's current content under its
+    own name (blobs are content-addressed: `curRef` = sha256 of `cur`). A lost blob of that name is whole again. -/
+def heal (store : Store) (curRef : Ref) (cur : List Nat) : Store := fun r => if r = curRef then some cur else store r
+
+/-- INITIAL's recorded snapshot as its readers see it: the claims of a file are validated when INITIAL is first read
+    (the file list of the checkpoint), BEFORE the current content is stored — a lost blob stays lost (the file is then
+    not processed at all); a readable one is read after `heal`. -/
+def pendStore (store : Store) (curRef : Ref) (cur : List Nat) : Store := fun r =>
+  match store r with
+  | none => none
+  | some _ => heal store curRef cur r
+
+/-- `git commit -a` of the file through the wrapper: pre-commit checkpoint (which first stores the current content
+    as blob `curRef`), then the note -/
+def commitNote (P : Params) (store : Store) (wl : WLog) (head : List Nat) (curRef : Ref) (cur : List Nat) : Note :=
+  noteOf head cur (effective P (heal store curRef cur) (pendStore store curRef cur) wl cur)
 
 /-- a finite blobs directory -/
 def storeOf (l : List (Ref × List Nat)) : Store := fun r => (l.find? (fun p => p.1 = r)).map (·.2)
